@@ -58,12 +58,12 @@ type Request struct {
 }
 
 type Reply struct {
-	Outcome string   `json:"outcome"` // value error static panic
-	Msg     string   `json:"msg,omitempty"`
-	Steps   uint64   `json:"steps,omitempty"`
-	Parsed  bool     `json:"parsed,omitempty"`
-	Names   []string `json:"names,omitempty"`
-	PastArgc bool    `json:"past_argc,omitempty"`
+	Outcome  string   `json:"outcome"` // value error static panic
+	Msg      string   `json:"msg,omitempty"`
+	Steps    uint64   `json:"steps,omitempty"`
+	Parsed   bool     `json:"parsed,omitempty"`
+	Names    []string `json:"names,omitempty"`
+	PastArgc bool     `json:"past_argc,omitempty"`
 }
 
 func optsOf(v int) *syntax.FileOptions {
@@ -686,6 +686,27 @@ var graphOps = []string{
 	"json.encode_indent(%s)", "struct(a = %s).to_json()", "[x for x in %s]", "set([%s])", "any(%s)", "tuple(%s)", "max([%s], key = str)",
 }
 
+// cyclic constructions incl. the ones the property names; %[1]s is a suffix so that two isomorphic copies can be built
+var cyclicExtras = []struct{ name, src string }{
+	{"cyc_l", "cyc_l%[1]s = []\ncyc_l%[1]s.append(cyc_l%[1]s)\n"},
+	{"cyc_d", "cyc_d%[1]s = {}\ncyc_d%[1]s[\"k\"] = cyc_d%[1]s\n"},
+	{"cyc_t", "cyc_t%[1]s = ([],)\ncyc_t%[1]s[0].append(cyc_t%[1]s)\n"},
+	{"cyc_f", "def mk_self%[1]s():\n    def g(): return g\n    return g\ncyc_f%[1]s = mk_self%[1]s()\n"},
+	{"cyc_s", "cyc_sl%[1]s = []\ncyc_s%[1]s = struct(x = cyc_sl%[1]s)\ncyc_sl%[1]s.append(cyc_s%[1]s)\n"},
+	{"cyc_bm", "cyc_bm%[1]s = []\ncyc_bm%[1]s.append(cyc_bm%[1]s.append)\n"},
+	{"cyc_ld", "cyc_ld%[1]s = [{}]\ncyc_ld%[1]s[0][\"l\"] = cyc_ld%[1]s\n"},
+	{"cyc_c", "def mk_cell%[1]s():\n    box = []\n    def h(): return box\n    box.append(h)\n    return h\ncyc_c%[1]s = mk_cell%[1]s()\n"},
+	{"cyc_dd", "cyc_dd%[1]s = {\"a\": {}}\ncyc_dd%[1]s[\"a\"][\"b\"] = cyc_dd%[1]s\n"},
+	{"cyc_dt", "cyc_dt%[1]s = {}\ncyc_dt%[1]s[\"t\"] = (cyc_dt%[1]s, 1)\n"},
+	{"cyc_sd", "cyc_sdd%[1]s = {}\ncyc_sd%[1]s = struct(d = cyc_sdd%[1]s)\ncyc_sdd%[1]s[\"s\"] = cyc_sd%[1]s\n"},
+}
+
+func renderOp(i int, op, a, b string) string {
+	n := strings.Count(strings.ReplaceAll(op, "%%", ""), "%s")
+	args := []any{a, b}[:n]
+	return fmt.Sprintf("r%d = "+op+"\n", append([]any{i}, args...)...)
+}
+
 func genGraph(t *rapid.T) Request {
 	m := gen.GenModule(t, false)
 	var sb strings.Builder
@@ -694,35 +715,56 @@ func genGraph(t *rapid.T) Request {
 	for _, v := range m.Vars {
 		names = append(names, v.Name)
 	}
-	// extra cyclic constructions incl. the ones the property names
-	extras := []string{
-		"cyc_l = []\ncyc_l.append(cyc_l)\n",
-		"cyc_d = {}\ncyc_d[\"k\"] = cyc_d\n",
-		"cyc_t = ([],)\ncyc_t[0].append(cyc_t)\n",
-		"def mk_self():\n    def g(): return g\n    return g\ncyc_f = mk_self()\n",
-		"cyc_sl = []\ncyc_s = struct(x = cyc_sl)\ncyc_sl.append(cyc_s)\n",
-		"cyc_bm = []\ncyc_bm.append(cyc_bm.append)\n",
-		"cyc_ld = [{}]\ncyc_ld[0][\"l\"] = cyc_ld\n",
-		"def mk_cell():\n    box = []\n    def h(): return box\n    box.append(h)\n    return h\ncyc_c = mk_cell()\n",
-	}
-	extraNames := []string{"cyc_l", "cyc_d", "cyc_t", "cyc_f", "cyc_s", "cyc_bm", "cyc_ld", "cyc_c"}
+	var cyc []string
 	for i := 0; i < 1+vk.Uniform(t, 3); i++ {
-		j := vk.Uniform(t, len(extras))
-		sb.WriteString(extras[j])
-		names = append(names, extraNames[j])
+		e := cyclicExtras[vk.Uniform(t, len(cyclicExtras))]
+		sb.WriteString(fmt.Sprintf(e.src, ""))
+		sb.WriteString(fmt.Sprintf(e.src, "_2")) // an isomorphic second copy
+		names = append(names, e.name, e.name+"_2")
+		cyc = append(cyc, e.name, e.name+"_2")
 	}
 	for i := 0; i < 1+vk.Uniform(t, 4); i++ {
 		op := graphOps[vk.Uniform(t, len(graphOps))]
 		a, b := names[vk.Uniform(t, len(names))], names[vk.Uniform(t, len(names))]
-		n := strings.Count(strings.ReplaceAll(op, "%%", ""), "%s")
-		args := []any{a, b}[:n]
-		fmt.Fprintf(&sb, "r%d = "+op+"\n", append([]any{i}, args...)...)
+		if vk.Chance(t, 0.6) {
+			a = cyc[vk.Uniform(t, len(cyc))]
+			switch vk.Uniform(t, 3) {
+			case 0:
+				b = a
+			case 1:
+				b = strings.TrimSuffix(a, "_2") + "_2"
+			}
+		}
+		sb.WriteString(renderOp(i, op, a, b))
 	}
 	opts := 8 // recursion on, so that self-referential closures may be defined
 	if m.Set {
 		opts |= 1
 	}
 	return Request{Kind: "src", Src: []byte(sb.String()), Opts: opts, Budget: 100000}
+}
+
+// Every cyclic construction x every operation, with the same value on both sides and with two isomorphic copies.
+func TestPropGraphCatalogue(t *testing.T) {
+	defer worker.Recycle()
+	vk.S.SetExhaustive("cyclic-constructions-x-operations-x-{same,isomorphic}", true)
+	vk.Enum(t, subCase, func(yield func(Request) bool) {
+		i := 0
+		for _, e := range cyclicExtras {
+			for _, op := range graphOps {
+				for _, second := range []string{e.name, e.name + "_2"} {
+					i++
+					if !vk.Mine(i) {
+						continue
+					}
+					src := fmt.Sprintf(e.src, "") + fmt.Sprintf(e.src, "_2") + renderOp(0, op, e.name, second)
+					if !yield(Request{Kind: "src", Src: []byte(src), Opts: 9, Budget: 100000}) {
+						return
+					}
+				}
+			}
+		}
+	})
 }
 
 func TestPropSources(t *testing.T) {
